@@ -341,6 +341,10 @@ C07_L(cfg, opts, lg) ==
         <<"C07.L.total", SeqSum(lg.pcost) =
               SumOver(Workers(cfg), LAMBDA w: cfg.workers[w].cost * Count(lg.ws[w], "WORKING"))
             + SumOver(Facs(cfg), LAMBDA f: cfg.facs[f].cost * Count(lg.fs[f], "WORKING"))>> >>
+\* after the logs have been edited (remove/insert_absence_time_list) the absence indices are no
+\* longer meaningful, everything else must still add up
+C07_AfterEdit(cfg, opts, lg) ==
+  SelectSeq(C07_L(cfg, opts, lg), LAMBDA c: c[1] # "C07.L.absence")
 \* live: a resource is charged iff WORKING in the settled state of a working step
 C07_Charge(cfg, opts, s) ==
   [w |-> [w \in Workers(cfg) |-> IF Working(opts, s) /\ s.ws[w] = "WORKING" THEN cfg.workers[w].cost ELSE 0],
